@@ -1,4 +1,5 @@
 import DeltaModel.Generated.StyleSites
+import DeltaModel.Generated.StyleRewrites
 import Proofs.StyleDenote
 /-!
 Which colour depth each style option is parsed with: facts about the generated inventory of
@@ -91,3 +92,44 @@ theorem site_depth (s : Site) (hs : s ∈ styleCallSites) (hk : s.kind = "option
   simp [evalDepth]
 
 end StyleSites
+
+/-! ### `set_options`: which style strings may be rewritten after the command line was read -/
+namespace StyleRewrites
+open Generated.StyleRewrites
+
+/-- The guard that protects a command-line value of `field`. -/
+def ownGuard (field : String) : String :=
+  "!config::user_supplied_option(\"" ++ field ++ "\", arg_matches)"
+
+/-- The style fields `set_options` may overwrite, and nothing else. -/
+def rewrittenFields : List String :=
+  ["minus_style", "minus_emph_style", "whitespace_error_style",
+   "file_decoration_style", "commit_decoration_style", "hunk_header_decoration_style"]
+
+/-- The decoration styles forced to `none` under `--color-only` (by design: `git add -p` needs
+output lines in 1-1 correspondence with git's; #274) — the only rewrite that also applies to a value
+given on the command line. -/
+def colorOnlyFields : List String :=
+  ["file_decoration_style", "commit_decoration_style", "hunk_header_decoration_style"]
+
+set_option maxRecDepth 8192 in
+/-- **Exactly these rewrites exist** (generated inventory of `set_options`), and:
+* every rewrite of a non-decoration style is guarded by `!user_supplied_option("<that same field>")`
+  (= the value did not come from the command line) and happens *before* the `set_options!` macro loads
+  git-config values — so a value the user gave on the command line or in git config is never rewritten;
+* the side-by-side HACK (`normal …` → `syntax …`) touches only `minus_style` / `minus_emph_style`, each
+  under its own guard;
+* the only other rewrites are the three decoration styles under `opt.color_only`, to `"none"`. -/
+theorem rewrites_are_exactly :
+    styleRewrites.map (·.field) = rewrittenFields ∧
+    userSuppliedMeansCommandLine = true ∧
+    (∀ r ∈ styleRewrites, r.field ∉ colorOnlyFields →
+      ownGuard r.field ∈ r.guards ∧ r.beforeGitConfig = true) ∧
+    (∀ r ∈ styleRewrites, r.field ∈ colorOnlyFields →
+      r.guards = ["opt.color_only"] ∧ r.value = "\"none\".to_string()") ∧
+    (∀ r ∈ styleRewrites, ("format!(\"syntax {}\"".toList.isPrefixOf r.value.toList) = true →
+      (r.field = "minus_style" ∨ r.field = "minus_emph_style") ∧
+      "features.contains(&\"side-by-side\".to_string())" ∈ r.guards ∧ ownGuard r.field ∈ r.guards) := by
+  decide
+
+end StyleRewrites
